@@ -1,4 +1,5 @@
 import MaddyVerif.Lemmas.PoolKey
+import MaddyVerif.Lemmas.PoolTick
 /-!
 # C19 — a pooled connection has one owner at a time and is closed once
 
@@ -314,13 +315,13 @@ theorem holder_enabled {s : St} (hs : SInv s) {i : Nat} {t : Task} (ht : s.tasks
 the ticker is there for anybody waiting to stop it -/
 theorem free_enabled {s : St} (hs : SInv s) {i : Nat} {t : Task} (ht : s.tasks[i]? = some t)
     (hl : t.pc.locked = false) (hnd : t.pc ≠ .done) (hlock : s.lock = none)
-    (htk : t.pc = .sStop → s.ticker = true) (p : Nat) : stepTask s i t p ≠ none := by
+    (htk : t.pc = .sStop → s.ticker = true ∧ s.tkTask = none) (p : Nat) : stepTask s i t p ≠ none := by
   have hnp := (hs.tasks i t ht).2.1
   obtain ⟨pc, prog, held⟩ := t
   cases pc <;> simp [Pc.locked] at hl <;> simp only [stepTask, hlock]
   case done => simp at hnd
   case panicked cs => exact absurd rfl (hnp cs)
-  case idle => split <;> (try split) <;> (try split) <;> simp
+  case idle => split <;> (try split) <;> (try split) <;> (try split) <;> (try split) <;> simp
   case wClose => simp
   case kClose => simp
   case gLock => simp; split <;> (try split) <;> (try split) <;> simp
@@ -328,7 +329,7 @@ theorem free_enabled {s : St} (hs : SInv s) {i : Nat} {t : Task} (ht : s.tasks[i
   case gUsable => split <;> (try split) <;> simp
   case rLock => simp; split <;> (try split) <;> (try split) <;> (try split) <;> simp
   case cLock => simp; split <;> simp
-  case sStop => simp [htk rfl]
+  case sStop => simp [(htk rfl).1, (htk rfl).2]
   case sLock => simp; split <;> simp
 
 /-- **No deadlock with a single shutdown.**  If the programs call `pool.Close()` at most once in total, then in
@@ -340,6 +341,7 @@ theorem C19_no_deadlock_single_shutdown (cfg : Cfg) (progs : List (List Op)) (ws
     ∃ i p, step (run (init cfg progs) ws) (.task i p) ≠ none := by
   have hinv := reach_inv cfg progs ws
   have hsh := shut_run ws (shut_init cfg progs h1)
+  have htki := tk_run ws (tk_init cfg progs)
   generalize run (init cfg progs) ws = s at *
   cases hlock : s.lock with
   | some j =>
@@ -348,21 +350,58 @@ theorem C19_no_deadlock_single_shutdown (cfg : Cfg) (progs : List (List Op)) (ws
     simp only [step, htj]
     exact holder_enabled hinv.sinv htj hlj 0
   | none =>
-    obtain ⟨i, t, hi, hnd⟩ := hlive
-    refine ⟨i, 0, ?_⟩
-    simp only [step, hi]
-    have hul : t.pc.locked = false := by
+    have hul : ∀ (i : Nat) (t : Task), s.tasks[i]? = some t → t.pc.locked = false := by
+      intro i t hi
       cases hb : t.pc.locked with
       | false => rfl
       | true => have := (hinv.sinv.tasks i t hi).1 hb; rw [hlock] at this; simp at this
-    refine free_enabled hinv.sinv hi hul hnd hlock ?_ 0
-    intro hp
-    cases htk : s.ticker with
-    | true => rfl
-    | false =>
-      have := hsh.2 htk
-      have := sd_pos_of_sStop s.tasks i t hi hp
-      omega
+    cases htk0 : s.tkTask with
+    | some j =>
+      -- the ticker goroutine is inside `CleanUp` (or on its way back): the lock is free, it can move
+      obtain ⟨tj, htj, hsw⟩ := htki j htk0
+      refine ⟨j, 0, ?_⟩
+      simp only [step, htj]
+      refine free_enabled hinv.sinv htj (hul j tj htj) ?_ hlock ?_ 0
+      · intro h; rw [h] at hsw; simp [sweeping] at hsw
+      · intro h; rw [h] at hsw; simp [sweeping] at hsw
+    | none =>
+      obtain ⟨i, t, hi, hnd⟩ := hlive
+      refine ⟨i, 0, ?_⟩
+      simp only [step, hi]
+      refine free_enabled hinv.sinv hi (hul i t hi) hnd hlock ?_ 0
+      intro hp
+      refine ⟨?_, htk0⟩
+      cases htk : s.ticker with
+      | true => rfl
+      | false =>
+        have := hsh.2 htk
+        have := sd_pos_of_sStop s.tasks i t hi hp
+        omega
+
+/-- **`Close` sends the stop signal before it takes the lock.**  In every reachable state a goroutine that is parked
+at the send on `cleanupStop` (waiting for the ticker goroutine to be in its `select`) does not hold `keysLock`, and
+nobody inside a critical section of the lock is waiting for anything but a step of its own.  This is the ordering
+`C19_no_deadlock_single_shutdown` rests on: a ticker goroutine whose ticker fired and which waits for the lock inside
+`CleanUp` is never waited for by the holder of that lock. -/
+theorem C19_stop_sent_outside_lock (cfg : Cfg) (progs : List (List Op)) (ws : List Who) (i : Nat) (t : Task)
+    (hi : (run (init cfg progs) ws).tasks[i]? = some t) (hp : t.pc = .sStop) :
+    (run (init cfg progs) ws).lock ≠ some i := by
+  intro hl
+  obtain ⟨tj, htj, hlj⟩ := (reach_inv cfg progs ws).sinv.holder i hl
+  rw [hi] at htj
+  simp only [Option.some.injEq] at htj
+  subst htj
+  rw [hp] at hlj
+  simp [Pc.locked] at hlj
+
+/-- **The ticker goroutine away from its `select` is inside `CleanUp`.**  Whenever the ticker of `cleanUpTick` has
+fired and the goroutine has not yet come back to the `select` (`tkTask = some j`; the stop signal cannot be delivered),
+goroutine `j` exists and is at one of the points of `CleanUp` or on its way back — in particular it never waits for
+anybody but the holder of `keysLock`. -/
+theorem C19_ticker_away_is_sweeping (cfg : Cfg) (progs : List (List Op)) (ws : List Who) (j : Nat)
+    (hj : (run (init cfg progs) ws).tkTask = some j) :
+    ∃ t, (run (init cfg progs) ws).tasks[j]? = some t ∧ sweeping t.pc = true :=
+  tk_run ws (tk_init cfg progs) j hj
 
 /-! ## cancellation: a `Get` whose context is cancelled or times out
 
@@ -487,6 +526,20 @@ theorem C19_double_shutdown_blocks :
     s.keysNil = true ∧ s.ticker = false ∧ (s.tasks.map (·.pc)) = [.done, .sStop] ∧
       ∀ p, (step s (.task 1 p)).isNone = true ∧ (step s (.task 0 p)).isNone = true := by
   refine ⟨by decide, by decide, by decide, fun p => ⟨rfl, rfl⟩⟩
+
+/-- Non-vacuity of the ticker part of the deadlock theorem: the ticker of `cleanUpTick` fires (worker 1, `sweep`) while
+worker 0 is parked in `Close()` at the send on `cleanupStop`.  As long as the ticker goroutine is inside `CleanUp`
+(`tkTask = some 1`) the send cannot complete — and, the lock not being held by `Close`, the sweep runs to its end, the
+goroutine returns to its `select`, the stop signal is taken and the shutdown completes: the idle connection is closed
+once. -/
+example :
+    let s1 := run (init cfgEx [[.get 0, .ret, .shutdown], [.sweep]]) (List.replicate 6 (.task 0 0) ++ [.task 1 0])
+    let s2 := run s1 [.task 1 0, .task 1 0, .task 1 0]
+    let s3 := run s2 (List.replicate 9 (.task 0 0))
+    s1.tkTask = some 1 ∧ (step s1 (.task 0 0)).isNone = true ∧ (s1.tasks.map (·.pc)) = [.sStop, .cLock] ∧
+      s2.tkTask = none ∧ (step s2 (.task 0 0)).isSome = true ∧
+      s3.keysNil = true ∧ s3.ticker = false ∧ s3.closed = [0] ∧ (s3.tasks.map (·.pc)) = [.done, .idle] := by
+  decide
 
 /-- The schedule of the defect that was repaired (worker 2 parked between unlock and select, worker 1 drops the
 expired bucket, worker 3 shuts the pool down, worker 2 resumes): in the repaired code worker 2 finds the bucket
